@@ -115,6 +115,23 @@ ElemCopyOf::getElementName() const
 }
 
 
+
+// A value that is not a node-set or a result tree fragment is converted to a
+// string and inserted like xsl:value-of does (XSLT 1.0, section 11.3): an
+// empty string creates no text node, so nothing is sent for it (any
+// characters event, even an empty one, closes a pending start tag).
+static inline void
+copyStringValue(
+            StylesheetExecutionContext&     executionContext,
+            const XObjectPtr&               value)
+{
+    if (value->stringLength(executionContext) != 0)
+    {
+        executionContext.characters(value);
+    }
+}
+
+
 #if !defined(XALAN_RECURSIVE_STYLESHEET_EXECUTION)
 const ElemTemplateElement*
 ElemCopyOf::startElement(StylesheetExecutionContext&        executionContext) const
@@ -168,7 +185,7 @@ ElemCopyOf::startElement(StylesheetExecutionContext&        executionContext) co
         case XObject::eTypeBoolean:
         case XObject::eTypeNumber:
         case XObject::eTypeString:
-            executionContext.characters(value);
+            copyStringValue(executionContext, value);
             break;
 
         case XObject::eTypeNodeSet:
@@ -190,7 +207,7 @@ ElemCopyOf::startElement(StylesheetExecutionContext&        executionContext) co
             break;
 
         default:
-            executionContext.characters(value);
+            copyStringValue(executionContext, value);
             break;
         }
     }
@@ -253,7 +270,7 @@ ElemCopyOf::execute(StylesheetExecutionContext&     executionContext) const
         case XObject::eTypeBoolean:
         case XObject::eTypeNumber:
         case XObject::eTypeString:
-            executionContext.characters(value);
+            copyStringValue(executionContext, value);
             break;
 
         case XObject::eTypeNodeSet:
@@ -275,7 +292,7 @@ ElemCopyOf::execute(StylesheetExecutionContext&     executionContext) const
             break;
 
         default:
-            executionContext.characters(value);
+            copyStringValue(executionContext, value);
             break;
         }
     }
